@@ -120,3 +120,53 @@ def manifest_history4(i2: int, op3: int, i3: int, op4: int, i4: int) -> bool:
     for op, i in ((OP1, 0), (OP2, i2), (op3, i3), (op4, i4)):
         ok = ok and step(doc, op, i) and consistent(doc)
     return done(ok)
+
+
+def merge_images(twice: bool, fill: bool, master: bool, already: bool) -> bool:
+    """
+    pre: fill or master
+    post: _
+    """
+    # merge_styles_from copies the pictures that styles refer to (a draw:fill-image, a picture in a master
+    # page's header) with their manifest entries: afterwards - also when the merge is done twice or the
+    # picture was already there - each file is listed exactly once and holds the other document's bytes
+    from odfdo.style import Style
+    dest, other = memdoc(), memdoc()
+    DR = "{urn:oasis:names:tc:opendocument:xmlns:drawing:1.0}"
+    XL = "{http://www.w3.org/1999/xlink}"
+    ST = "{urn:oasis:names:tc:opendocument:xmlns:style:1.0}"
+
+    def child(parent, qname):
+        e = Element.make_etree_element(qname)
+        parent.append(e)
+        return e
+
+    ostyles = other.styles.root._Element__element
+    if fill:
+        fi = child([c for c in ostyles._children if c.tag.endswith("}styles")][0], "draw:fill-image")
+        fi.set(DR + "name", "F")
+        fi.set(XL + "href", "Pictures/f.png")
+        other.container.set_part("Pictures/f.png", b"fill")
+        other.manifest.add_full_path("Pictures/f.png", "image/png")
+    if master:
+        mp = child([c for c in ostyles._children if c.tag.endswith("}master-styles")][0], "style:master-page")
+        mp.set(ST + "name", "M")
+        hd = child(mp, "style:header")
+        fr = child(child(hd, "text:p"), "draw:frame")
+        im = child(fr, "draw:image")
+        im.set(XL + "href", "Pictures/m.png")
+        other.container.set_part("Pictures/m.png", b"master")
+        other.manifest.add_full_path("Pictures/m.png", "image/png")
+    if already:
+        dest.container.set_part("Pictures/f.png", b"old")
+        dest.manifest.add_full_path("Pictures/f.png", "image/png")
+    ok = consistent(dest) and consistent(other)
+    dest.merge_styles_from(other)
+    if twice:
+        dest.merge_styles_from(other)
+    ok = ok and consistent(dest) and consistent(other)
+    if fill:
+        ok = ok and dest.container.get_part("Pictures/f.png") == b"fill"
+    if master:
+        ok = ok and dest.container.get_part("Pictures/m.png") == b"master"
+    return done(ok)
